@@ -94,6 +94,26 @@ def run(run, tier):
         T = F(rng.randint(0, 8), 8)
         cases.append(('deg', (G, x, T), None))
         cases.append(('pnk', (G,), None))
+        # the degree distribution is the histogram of G.degree(): graphs on which the degree is NOT the number of distinct
+        # neighbours -- a self-loop (counts 2), parallel edges of a MultiGraph (raw configuration_model output), a DiGraph (in + out)
+        if i % 3 == 0:
+            kind = (i // 3) % 3
+            H = nx.Graph(G) if kind == 0 else nx.MultiGraph(G) if kind == 1 else nx.DiGraph()
+            if kind == 0:
+                for u in rng.sample(labels, rng.randint(1, 2)): H.add_edge(u, u)
+            elif kind == 1:
+                es = list(G.edges())
+                for u, v in rng.sample(es, min(len(es), rng.randint(1, 3))): H.add_edge(u, v)
+                if rng.random() < 0.5: H.add_edge(labels[0], labels[0])
+            else:
+                H.add_nodes_from(labels)
+                for u, v in G.edges():
+                    r = rng.random()
+                    if r < 0.45: H.add_edge(u, v)
+                    elif r < 0.9: H.add_edge(v, u)
+                    else: H.add_edge(u, v); H.add_edge(v, u)
+            if any(d > 0 for _, d in H.degree()):
+                cases.append(('deg', (H, x, T), None))
 
     # ---- model lines -------------------------------------------------------
     def ql(l): return '%d %s' % (len(l), ' '.join(C.qtok(x) for x in l))
